@@ -19,6 +19,15 @@ def analyse(code):
     return tifa_analysis()
 
 
+def _short(value):
+    """repr that cannot fail (Python refuses to print integers of more than 4300 digits)"""
+    try:
+        text = repr(value)
+    except ValueError:
+        return '<%s too large to print>' % type(value).__name__
+    return text if len(text) <= 80 else text[:77] + '...'
+
+
 def conforms(value, pedal_type):
     """the run-time value conforms to the inferred pedal type"""
     from pedal.types.normalize import get_pedal_type_from_value
@@ -30,7 +39,7 @@ def conforms(value, pedal_type):
         ok = is_subtype(vt, pedal_type)
     except Exception as e:
         return False, 'is_subtype raised %r' % e
-    return ok, 'value %r has type %s, inferred %s' % (value, type(vt).__name__, type(pedal_type).__name__)
+    return ok, 'value %s has type %s, inferred %s' % (_short(value), type(vt).__name__, type(pedal_type).__name__)
 
 
 def cpython(expr, env):
@@ -65,6 +74,36 @@ def ground(arg):
                 good, why = conforms(value, ty)
                 if not good:
                     ok, detail = False, '%s %s %s: %s' % (na, op, nb, why)
+            out.append({'id': oid, 'ok': ok, 'detail': detail or 'agrees with CPython (%s)' % kind,
+                        'witness': {'program': code}, 'canon': oid})
+    # the augmented form `a <op>= b` of every binary operator: same table, operands in the same order
+    pairs = CORE + [('tuple_of_mixed', "(1, 'x')"), ('tuple_of_float', '(2.5,)'), ('list_of_str', "['y']")]
+    for (na, la), (nb, lb) in itertools.product(pairs, pairs):
+        for op in BINOPS:
+            oid = 'augcell[%s %s= %s]' % (na, op, nb)
+            ns = {'a': eval(la), 'b': eval(lb)}
+            try:
+                exec('a %s= b' % op, {}, ns)
+                kind, value = 'ok', ns['a']
+            except TypeError:
+                kind, value = 'TypeError', None
+            except Exception as e:
+                kind, value = 'other:' + type(e).__name__, None
+            code = "a = %s\nb = %s\na %s= b\nprint(a)\n" % (la, lb, op)
+            try:
+                t = analyse(code)
+            except Exception as e:
+                out.append({'id': oid, 'ok': False, 'detail': 'tifa_analysis raised %r' % e, 'witness': {'program': code}, 'canon': oid})
+                continue
+            incompatible = 'incompatible_types' in t.issues
+            ok, detail = True, ''
+            if kind == 'TypeError' and not incompatible:
+                ok, detail = False, 'CPython raises TypeError for %s %s= %s but TIFA reports nothing' % (na, op, nb)
+            elif kind == 'ok' and not incompatible:
+                ty = t.top_level_variables['a'].type if 'a' in t.top_level_variables else None
+                good, why = conforms(value, ty)
+                if not good:
+                    ok, detail = False, '%s %s= %s: %s' % (na, op, nb, why)
             out.append({'id': oid, 'ok': ok, 'detail': detail or 'agrees with CPython (%s)' % kind,
                         'witness': {'program': code}, 'canon': oid})
     return out
